@@ -13,6 +13,8 @@
 (*                                    salt; nil / capacity 0 = always new  *)
 (*   FirstWrite(c)    tcp.go:152-154 + SDK stream.go:79-101  the response  *)
 (*                    writer draws its salt from the ENTRY's generator     *)
+(*   EntropyFails(c)  the entropy source fails while the salt is drawn:    *)
+(*                    GetSalt returns the error, no response stream        *)
 (*   Absorb(c)        tcp.go:342-346, 373-379  probe handling              *)
 (* Salts are tokens 1,2,3..; salts[t] says who made token t and - for a    *)
 (* salt made by a marking generator - for which secret it is marked        *)
@@ -31,7 +33,8 @@ CONSTANTS Keys,        \* the key list in search order: sequence of [name, cls, 
           Conns,       \* connection ids
           CacheModes,  \* subset of {"nil", "zero", "on"}: replay cache absent / capacity 0 / remembering
           MaxSalt,     \* bound on salt tokens
-          MaxInFlight  \* connections between Hello and the end of authentication at the same time
+          MaxInFlight, \* connections between Hello and the end of authentication at the same time
+          Faults       \* TRUE: the system's entropy source may fail while a response salt is drawn
 
 Classes  == 1..4
 SaltSize == <<32, 32, 24, 16>>
@@ -119,6 +122,15 @@ FirstWriteCore(c) ==
   /\ conn' = [conn EXCEPT ![c] = [@ EXCEPT !.ph = "served", !.resp = Len(salts) + 1, !.dial = TRUE, !.wrote = TRUE]]
   /\ UNCHANGED <<cache, seen>>
 
+\* crypto/rand fails while the generator draws the salt (server_salt.go:43-46, 101-107; SDK stream.go:82-85): GetSalt
+\* returns the error, the first Write fails, NO response stream is produced.  The only other outcome of a first write
+\* is FirstWrite's fresh salt - a salt completed without fresh randomness is not a behaviour of this specification.
+EntropyFailsCore(c) ==
+  /\ Faults
+  /\ conn[c].ph = "authed"
+  /\ conn' = [conn EXCEPT ![c] = [@ EXCEPT !.ph = "noresp", !.dial = TRUE]]
+  /\ UNCHANGED <<cache, seen, salts>>
+
 \* drain until the client closes or the deadline, AddProbe, AddClosed(status), close: nothing else
 AbsorbCore(c) ==
   /\ conn[c].ph = "probe"
@@ -135,6 +147,7 @@ CheckSalt(c)   == CheckSaltCore(c)   /\ tr' = Append(tr, [a |-> "CheckSalt", c |
 CheckReplay(c) == CheckReplayCore(c) /\ tr' = Append(tr, [a |-> "CheckReplay", c |-> c, st |-> conn'[c].st])
 FirstWrite(c)  == FirstWriteCore(c)  /\ tr' = Append(tr, [a |-> "FirstWrite", c |-> c, resp |-> conn'[c].resp])
 Absorb(c)      == AbsorbCore(c)      /\ tr' = Append(tr, [a |-> "Absorb", c |-> c, st |-> conn[c].st])
+EntropyFails(c) == EntropyFailsCore(c) /\ tr' = Append(tr, [a |-> "EntropyFails", c |-> c])
 
 Init == /\ cache \in CacheModes
         /\ seen = {} /\ salts = <<>>
@@ -143,13 +156,13 @@ Init == /\ cache \in CacheModes
 
 Next == \E c \in Conns :
           \/ \E k \in 0..Len(Keys), t \in 0..MaxSalt : Hello(c, k, t)
-          \/ FindKey(c) \/ CheckSalt(c) \/ CheckReplay(c) \/ FirstWrite(c) \/ Absorb(c)
+          \/ FindKey(c) \/ CheckSalt(c) \/ CheckReplay(c) \/ FirstWrite(c) \/ EntropyFails(c) \/ Absorb(c)
 
 Spec == Init /\ [][Next]_vars
 
 (* ---------------------------------------------------------------- property layer (C08) *)
 Responded == {c \in Conns : conn[c].resp # 0}
-Authenticated(c) == conn[c].ph \in {"authed", "served"}
+Authenticated(c) == conn[c].ph \in {"authed", "served", "noresp"}
 
 \* every response starts with a salt that is new: no other response and no earlier handshake carries it
 RespSaltsFresh ==
@@ -170,7 +183,7 @@ ReflectedNeverAuthenticated ==
 
 \* the status classes
 StatusClasses ==
-  \A c \in Conns : conn[c].ph \in {"probe", "closed", "authed", "served"} =>
+  \A c \in Conns : conn[c].ph \in {"probe", "closed", "authed", "served", "noresp"} =>
      LET m == Match(conn[c].k) IN
        /\ (conn[c].st = "ERR_CIPHER") <=> (m = 0)
        /\ (conn[c].st = "ERR_REPLAY_SERVER") <=> (m # 0 /\ ServerIssuedFor(m, conn[c].t) /\ Marking(Keys[m].cls))
@@ -182,7 +195,7 @@ ProbeNoEffect == \A c \in Conns : (conn[c].dial \/ conn[c].wrote \/ conn[c].resp
 
 TypeOK == /\ cache \in {"nil", "zero", "on"}
           /\ Len(salts) <= MaxSalt
-          /\ \A c \in Conns : conn[c].ph \in {"idle", "hello", "keyfound", "saltok", "authed", "served", "probe", "closed"}
+          /\ \A c \in Conns : conn[c].ph \in {"idle", "hello", "keyfound", "saltok", "authed", "served", "noresp", "probe", "closed"}
 
 View == <<cache, seen, salts, conn>>
 ===============================================================================
